@@ -69,8 +69,14 @@ func createShellFunctions() {
 		if s.Term != nil {
 			s.Term.Suspend()
 		}
+		prevCtx, prevCancel := s.Context, s.Cancel
 		//nolint:fatcontext // we do need to update/reset the context and its cancel function.
 		s.Context, s.Cancel = context.WithCancel(context.Background()) // no timeout.
+		if s.Term == nil {
+			// Without a terminal nothing puts a context back after the command: the rest of the evaluation
+			// would have neither deadline nor cancellation.
+			defer func() { s.Context, s.Cancel = prevCtx, prevCancel }()
+		}
 		cmd, oerr := createCmd(*s, args)
 		if oerr != nil {
 			return *oerr
